@@ -26,8 +26,11 @@
     write of different calls may interleave more freely than in the code); the async queue is
     unbounded (a full queue only blocks); Dispatch is one step (the recv goroutine is sequential
     and its intermediate states are not observable through the log); session-id validation,
-    decode-error handlers, autoS9F9 and channel handlers are off (defaults).  [fx] selects the
-    CURRENT step function ([false]) or the REPAIRED one ([true], fixes/C06-ctrl-rsp-into-data-waiter.diff). *)
+    decode-error handlers, autoS9F9 and channel handlers are off (defaults).  Three step functions:
+    the ORIGINAL one ([fx = false], [DW p = false]); the FIRST repair af6ced9 ([fx = true],
+    [DW p = false]: the sender ignores a routed control response); the CURRENT one ([fx = true],
+    [DW p = true]: in addition the registry refuses non-data, non-error results for data
+    transactions, fixes/C06-ctrl-rsp-shadows-reply.diff). *)
 From Coq Require Import ZArith Bool List Lia.
 Import ListNotations.
 Open Scope Z_scope.
@@ -158,7 +161,10 @@ Inductive obs :=
   | OGenUp (g : Z)                               (* TCP up for generation g *)
   | OGenDown (g : Z).                            (* drop / teardown / fault of generation g began *)
 
-Record cfg := mkCfg { T3 : Z; T6 : Z; NH : Z }.   (* timers, number of registered handlers *)
+(* timers, number of registered handlers, and DW: data transactions register data-only (the
+   registry hands them only data messages and errors; fix "a control response reusing an open data
+   transaction's system bytes no longer occupies the sender's reply slot") *)
+Record cfg := mkCfg { T3 : Z; T6 : Z; NH : Z; DW : bool }.
 
 Record state := mkS {
   st : cstate; opened : bool; gen : Z; sock : bool; gcancel : bool; fault : bool;
@@ -307,6 +313,16 @@ Definition enq_int (s : state) (f : frame) : state := w_sendq s (sendq s ++ [(-1
 Fixpoint handler_obs (k : nat) (h n : Z) : list obs :=
   match k with O => [] | S k' => OHandler h n :: handler_obs k' (h + 1) n end.
 
+(* replyRegistry.route for a control response: a key registered by a DATA transaction (registerData)
+   is a miss for anything that is neither a data message nor an error *)
+Definition data_waiter (s : state) (id : Z) : bool :=
+  match get id (calls s) with Some c => kind_eqb (c_kind c) KSync | None => false end.
+Definition route_ctl (p : cfg) (s : state) (f : frame) : option Z :=
+  match reg_get (gen s) (f_sys f) (reg s) with
+  | Some id => if DW p && data_waiter s id then None else Some id
+  | None => None
+  end.
+
 (* hsmsss/transport_recv.go dispatchFrame + hsms DeliverOwnedFrame / RouteReply / RouteData *)
 Definition dispatch (p : cfg) (s : state) (n : Z) (f : frame) : state * list obs :=
   if negb (f_pt f =? 0) || negb (valid_stype (f_st f)) then (enq_int s (reject_unsupported f), [])
@@ -325,7 +341,7 @@ Definition dispatch (p : cfg) (s : state) (n : Z) (f : frame) : state * list obs
     | None => (s, [])
     end
   else if (f_st f =? 2) || (f_st f =? 4) || (f_st f =? 6) then
-    match reg_get (gen s) (f_sys f) (reg s) with
+    match route_ctl p s f with
     | Some id =>
         let s1 := offer s id (CMsg n f) in
         if (f_st f =? 2) && (f_b3 f =? 0) && cstate_eqb (st s1) NS then (w_st s1 SEL, []) else (s1, [])
